@@ -24,6 +24,8 @@ CONSTANTS Clients,     \* client / item identifiers
           MaxFlush,    \* how many explicit client Flush calls
           Barrier,     \* TRUE: Begin waits until no call is between journal and apply (a write barrier)
           CloseWaits,  \* TRUE: shutdown waits for a snapshot/compaction in progress
+          CaptureWaits,\* TRUE: the capture of a snapshot/compaction waits for every call that started before Begin
+                       \*       (beginWrite / waitForEarlierWrites in engine.go); FALSE: the older protocol with the gap
           SnapFails    \* TRUE: a snapshot may fail after Begin (temp file cannot be created): error-path cleanup
 
 VARIABLES
@@ -42,12 +44,13 @@ VARIABLES
   snap,     \* <<>> or <<[Clients -> ver]>> : snapshot image on disk
   apc,      \* admin program counter
   img,      \* image captured by the admin procedure in progress
+  pre,      \* calls that had started (possibly journaled to the old log) when Begin was served and have not applied yet
   pend,     \* shadow writes handed back by EndSnapshotMode, still to be re-appended
   nadmin, nflush,
   dev       \* history: named deviations exercised: "gap" = a Begin was served while some call sat between
             \* journal and apply; "close_during_admin" = shutdown while a snapshot/compaction was in progress
 
-vars == <<cpc, cver, memv, acked, q, buf, shadow, mode, wclosed, wdead, ackpre, file, snap, apc, img, pend, nadmin, nflush, dev>>
+vars == <<cpc, cver, memv, acked, q, buf, shadow, mode, wclosed, wdead, ackpre, file, snap, apc, img, pre, pend, nadmin, nflush, dev>>
 
 Zero == [c \in Clients |-> 0]
 Reset == [c |-> "RESET", v |-> 0]
@@ -69,7 +72,7 @@ Drained == DrainedOf(q)
 Init ==
   /\ cpc = [c \in Clients |-> "idle"] /\ cver = Zero /\ memv = Zero /\ acked = Zero
   /\ q = <<>> /\ buf = <<>> /\ shadow = <<>> /\ mode = FALSE /\ wclosed = FALSE /\ wdead = FALSE /\ ackpre = Zero
-  /\ file = <<>> /\ snap = <<>> /\ apc = "idle" /\ img = Zero /\ pend = <<>>
+  /\ file = <<>> /\ snap = <<>> /\ apc = "idle" /\ img = Zero /\ pend = <<>> /\ pre = {}
   /\ nadmin = 0 /\ nflush = 0 /\ dev = {}
 
 \* ---- clients -------------------------------------------------------------
@@ -78,7 +81,7 @@ C_Start(c) ==
   /\ cpc[c] = "idle" /\ cver[c] < MaxVer
   /\ cver' = [cver EXCEPT ![c] = @ + 1]
   /\ cpc' = [cpc EXCEPT ![c] = "sending"]
-  /\ UNCHANGED <<memv, acked, q, buf, shadow, mode, wclosed, wdead, ackpre, file, snap, apc, img, pend, nadmin, nflush, dev>>
+  /\ UNCHANGED <<memv, acked, q, buf, shadow, mode, wclosed, wdead, ackpre, file, snap, apc, img, pre, pend, nadmin, nflush, dev>>
 
 \* AOF.Write: the entry enters writeCh (or the call fails because the writer is closed)
 C_Enqueue(c) ==
@@ -90,6 +93,7 @@ C_Enqueue(c) ==
           \* the closing check earlier is still queued, acknowledged -- and dropped
           cpc' = [cpc EXCEPT ![c] = "sent"] /\ UNCHANGED q
      ELSE q' = Append(q, [c |-> c, v |-> cver[c]]) /\ cpc' = [cpc EXCEPT ![c] = "sent"]
+  /\ pre' = IF wdead THEN pre \ {c} ELSE pre
   /\ UNCHANGED <<cver, memv, acked, buf, shadow, mode, wclosed, wdead, ackpre, file, snap, apc, img, pend, nadmin, nflush, dev>>
 
 \* the memory mutation, then the call returns nil (acknowledged)
@@ -98,6 +102,7 @@ C_Apply(c) ==
   /\ memv' = [memv EXCEPT ![c] = cver[c]]
   /\ acked' = [acked EXCEPT ![c] = cver[c]]
   /\ cpc' = [cpc EXCEPT ![c] = "idle"]
+  /\ pre' = pre \ {c}
   /\ UNCHANGED <<cver, q, buf, shadow, mode, wclosed, wdead, ackpre, file, snap, apc, img, pend, nadmin, nflush, dev>>
 
 \* ---- writer goroutine ----------------------------------------------------
@@ -106,13 +111,13 @@ W_Recv ==
   /\ q' = Tail(q)
   /\ IF mode THEN shadow' = Append(shadow, Head(q)) /\ UNCHANGED buf
              ELSE buf' = Append(buf, Head(q)) /\ UNCHANGED shadow
-  /\ UNCHANGED <<cpc, cver, memv, acked, mode, wclosed, wdead, ackpre, file, snap, apc, img, pend, nadmin, nflush, dev>>
+  /\ UNCHANGED <<cpc, cver, memv, acked, mode, wclosed, wdead, ackpre, file, snap, apc, img, pre, pend, nadmin, nflush, dev>>
 
 \* flushTicker / syncTicker
 W_Tick ==
   /\ buf # <<>> /\ ~wclosed
   /\ file' = file \o buf /\ buf' = <<>>
-  /\ UNCHANGED <<cpc, cver, memv, acked, q, shadow, mode, wclosed, wdead, ackpre, snap, apc, img, pend, nadmin, nflush, dev>>
+  /\ UNCHANGED <<cpc, cver, memv, acked, q, shadow, mode, wclosed, wdead, ackpre, snap, apc, img, pre, pend, nadmin, nflush, dev>>
 
 \* cmdFlush / cmdSync served (explicit Flush by a caller, KVDelete, engine tickers)
 W_FlushQ(qq, rest) ==
@@ -120,7 +125,7 @@ W_FlushQ(qq, rest) ==
   /\ nflush' = nflush + 1
   /\ q' = rest /\ shadow' = DrainedOf(qq).s
   /\ file' = file \o DrainedOf(qq).b /\ buf' = <<>>
-  /\ UNCHANGED <<cpc, cver, memv, acked, mode, wclosed, wdead, ackpre, snap, apc, img, pend, nadmin, dev>>
+  /\ UNCHANGED <<cpc, cver, memv, acked, mode, wclosed, wdead, ackpre, snap, apc, img, pre, pend, nadmin, dev>>
 
 \* ---- admin: SaveSnapshot -------------------------------------------------
 InFlight == \E c \in Clients : cpc[c] = "sent"
@@ -131,20 +136,22 @@ A_BeginQ(kind, qq, rest) ==          \* BeginSnapshotMode (cmdBeginSnapshot): dr
   /\ nadmin' = nadmin + 1
   /\ q' = rest /\ file' = file \o DrainedOf(qq).b /\ buf' = <<>> /\ shadow' = <<>> /\ mode' = TRUE
   /\ apc' = kind \o ".begun"
-  /\ dev' = IF InFlight THEN dev \cup {"gap"} ELSE dev
+  /\ dev' = IF InFlight /\ ~CaptureWaits THEN dev \cup {"gap"} ELSE dev
+  /\ pre' = IF CaptureWaits THEN {c \in Clients : cpc[c] # "idle"} ELSE {}
   /\ UNCHANGED <<cpc, cver, memv, acked, wclosed, wdead, ackpre, snap, img, pend, nflush>>
 
 A_Capture(kind) ==        \* DB.Snapshot / the capture steps of RewriteAOF read memory (KV store under its lock)
   /\ apc = kind \o ".begun"
+  /\ pre = {}                 \* waitForEarlierWrites: every call that started before Begin has applied
   /\ img' = memv
   /\ apc' = kind \o ".captured"
-  /\ UNCHANGED <<cpc, cver, memv, acked, q, buf, shadow, mode, wclosed, wdead, ackpre, file, snap, pend, nadmin, nflush, dev>>
+  /\ UNCHANGED <<cpc, cver, memv, acked, q, buf, shadow, mode, wclosed, wdead, ackpre, file, snap, pre, pend, nadmin, nflush, dev>>
 
 S_Rename ==               \* os.Rename(tmp, kdb)
   /\ apc = "snap.captured"
   /\ snap' = <<img>>
   /\ apc' = "snap.renamed"
-  /\ UNCHANGED <<cpc, cver, memv, acked, q, buf, shadow, mode, wclosed, wdead, ackpre, file, img, pend, nadmin, nflush, dev>>
+  /\ UNCHANGED <<cpc, cver, memv, acked, q, buf, shadow, mode, wclosed, wdead, ackpre, file, img, pre, pend, nadmin, nflush, dev>>
 
 S_TruncateQ(qq, rest) ==             \* cmdTruncate: drain (into the shadow buffer), flush, truncate the log
   /\ apc = "snap.renamed"
@@ -152,7 +159,7 @@ S_TruncateQ(qq, rest) ==             \* cmdTruncate: drain (into the shadow buff
      THEN apc' = "idle" /\ UNCHANGED <<q, shadow, buf, file>>      \* command refused: procedure aborts
      ELSE /\ q' = rest /\ shadow' = DrainedOf(qq).s /\ buf' = <<>> /\ file' = <<>>
           /\ apc' = "snap.truncated"
-  /\ UNCHANGED <<cpc, cver, memv, acked, mode, wclosed, wdead, ackpre, snap, img, pend, nadmin, nflush, dev>>
+  /\ UNCHANGED <<cpc, cver, memv, acked, mode, wclosed, wdead, ackpre, snap, img, pre, pend, nadmin, nflush, dev>>
 
 R_ReplaceQ(qq, rest) ==              \* cmdReplaceWith: drain, flush, swap in the compacted log (self-contained: RESET first)
   /\ apc = "rw.captured"
@@ -162,7 +169,7 @@ R_ReplaceQ(qq, rest) ==              \* cmdReplaceWith: drain, flush, swap in th
           /\ file' = <<Reset>> \o [i \in 1..Len(SetToSeq({c \in Clients : img[c] > 0})) |->
                                      LET c == SetToSeq({cc \in Clients : img[cc] > 0})[i] IN [c |-> c, v |-> img[c]]]
           /\ apc' = "rw.truncated"
-  /\ UNCHANGED <<cpc, cver, memv, acked, mode, wclosed, wdead, ackpre, snap, img, pend, nadmin, nflush, dev>>
+  /\ UNCHANGED <<cpc, cver, memv, acked, mode, wclosed, wdead, ackpre, snap, img, pre, pend, nadmin, nflush, dev>>
 
 A_EndQ(kind, qq, rest) ==            \* EndSnapshotModeAndReappend (cmdEndSnapshotReappend): drain, move the shadow writes back
                           \* into the write buffer in order, leave snapshot mode, flush -- one step of the writer goroutine
@@ -172,19 +179,20 @@ A_EndQ(kind, qq, rest) ==            \* EndSnapshotModeAndReappend (cmdEndSnapsh
      ELSE /\ q' = rest /\ shadow' = <<>> /\ mode' = FALSE
           /\ file' = file \o DrainedOf(qq).b \o DrainedOf(qq).s /\ buf' = <<>>
   /\ apc' = "idle"
-  /\ UNCHANGED <<cpc, cver, memv, acked, wclosed, wdead, ackpre, snap, img, pend, nadmin, nflush, dev>>
+  /\ UNCHANGED <<cpc, cver, memv, acked, wclosed, wdead, ackpre, snap, img, pre, pend, nadmin, nflush, dev>>
 
 \* SaveSnapshot fails after BeginSnapshotMode (its temp file cannot be created, DB.Snapshot fails): the deferred
 \* cleanup leaves snapshot mode with EndSnapshotModeAndReappend -- the writes diverted to the shadow buffer were
 \* acknowledged and go back into the (untouched) log
 A_FailQ(qq, rest) ==
   /\ SnapFails /\ apc = "snap.begun"
+  /\ pre = {}                 \* the temp file is created after waitForEarlierWrites
   /\ IF wclosed
      THEN UNCHANGED <<q, shadow, mode, buf, file>>
      ELSE /\ q' = rest /\ shadow' = <<>> /\ mode' = FALSE
           /\ file' = file \o DrainedOf(qq).b \o DrainedOf(qq).s /\ buf' = <<>>
   /\ apc' = "idle"
-  /\ UNCHANGED <<cpc, cver, memv, acked, wclosed, wdead, ackpre, snap, img, pend, nadmin, nflush, dev>>
+  /\ UNCHANGED <<cpc, cver, memv, acked, wclosed, wdead, ackpre, snap, img, pre, pend, nadmin, nflush, dev>>
 
 \* (kept for the older protocol: EndSnapshotMode handing the writes back to the engine, which re-appended
 \*  them one by one -- see known_findings.json FX-14; never enabled now because apc never ends in ".ended")
@@ -194,7 +202,7 @@ A_Reappend(kind) ==
      THEN apc' = "idle" /\ UNCHANGED <<q, pend>>
      ELSE IF wclosed THEN apc' = "idle" /\ pend' = <<>> /\ UNCHANGED q
      ELSE q' = Append(q, Head(pend)) /\ pend' = Tail(pend) /\ UNCHANGED apc
-  /\ UNCHANGED <<cpc, cver, memv, acked, buf, shadow, mode, wclosed, wdead, ackpre, file, snap, img, nadmin, nflush, dev>>
+  /\ UNCHANGED <<cpc, cver, memv, acked, buf, shadow, mode, wclosed, wdead, ackpre, file, snap, img, pre, nadmin, nflush, dev>>
 
 \* ---- shutdown --------------------------------------------------------------
 \* LazyAOFWriter.Close (cmdClose): drain, merge the shadow buffer, flush, sync, close
@@ -205,13 +213,13 @@ W_CloseQ(qq, rest) ==
   /\ ackpre' = acked
   /\ file' = file \o DrainedOf(qq).b \o DrainedOf(qq).s
   /\ q' = rest /\ buf' = <<>> /\ shadow' = <<>> /\ mode' = FALSE
-  /\ UNCHANGED <<cpc, cver, memv, acked, wdead, snap, apc, img, pend, nadmin, nflush, dev>>
+  /\ UNCHANGED <<cpc, cver, memv, acked, wdead, snap, apc, img, pre, pend, nadmin, nflush, dev>>
 
 \* the run goroutine returns: closedCh is closed
 W_Dead ==
   /\ wclosed /\ ~wdead
   /\ wdead' = TRUE
-  /\ UNCHANGED <<cpc, cver, memv, acked, q, buf, shadow, mode, wclosed, ackpre, file, snap, apc, img, pend, nadmin, nflush, dev>>
+  /\ UNCHANGED <<cpc, cver, memv, acked, q, buf, shadow, mode, wclosed, ackpre, file, snap, apc, img, pre, pend, nadmin, nflush, dev>>
 
 \* the commands as the model takes them: the whole queue is drained
 W_Flush == W_FlushQ(q, <<>>)
